@@ -14,7 +14,7 @@ from ..monitors import SiftProbe, thread_probe
 from ..refmodels import ref_next_imf, guard_margin
 
 MANIFEST = {
-    'text': 'Held on every extraction executed: emd.sift.get_next_imf is compared (bit-equality first, 1e-10 relative outside a measured guard band otherwise) with an independent iterate model for all stop rules, thresholds, step sizes, iteration limits 1..1000, interpolation and padding options, including the energy-threshold flag; a step-counting monitor decides termination on logical steps; the run is inconclusive unless all five exit classes (stop@1, stop@k>1, no-extrema@1, no-extrema@k>1, convergence error) were observed. Sampling, not proof.',
+    'text': 'Held on every extraction executed: emd.sift.get_next_imf is compared (bit-equality first, 1e-10 relative outside a measured guard band otherwise) with an independent iterate model for all stop rules, thresholds, step sizes, iteration limits 1..1000, interpolation and padding options, including the energy-threshold flag; a step-counting monitor decides termination on logical steps; the run is inconclusive unless all five exit classes (stop@1, stop@k>1, no-extrema@1, no-extrema@k>1, convergence error) were observed. Sampling, not proof. Schedules: the same deterministic calls made from 4-5 threads of one interpreter at once (thread switch every 1-10 microseconds) must reproduce the results obtained alone. A quarter of the shards run in a session that turns Deprecation/Future/UserWarnings into errors.',
     'note': 'Trusted: numpy/scipy and the public interp_envelope stage (its own correctness is C05). One iteration of slack is accepted at the max_iters boundary.',
     'technique': 'reference-model monitor on the real get_next_imf + bounded-iteration (logical step) monitor',
 }
